@@ -610,7 +610,15 @@ static int c05_cmd (char *line)
           return 1;
         }
       if (!base_sp)
-        remember_base ();
+        {
+          /* the first evaluation of the case: print the reference snapshot and probe, as `inject` does */
+          char s0[512];
+          remember_base ();
+          snapshot (s0, sizeof s0);
+          vh_out ("base %s", s0);
+          run_probe (out, sizeof out);
+          vh_out ("probe0 %s", out);
+        }
       evaluate_k (ob, tok[2], 0, 0, 0, out, sizeof out);
       vh_out ("run %s", out);
       return 1;
